@@ -58,14 +58,14 @@ RTRow(st, rid, client, req, scopes, aud, sub) ==
 (* ---- which storage method is the process about to call --------------------- *)
 MethodOf(pr) ==
   LET pc == pr.pc IN
-  CASE pc \in {"rd.client", "rf.client", "rv.client", "dp.client", "az.client"} -> "GetClient"
+  CASE pc \in {"rd.client", "rf.client", "rv.client", "dp.client", "az.client", "ja.client"} -> "GetClient"
     [] pc \in {"rd.getcode1", "rd.getcode2"} -> "GetAuthorizeCodeSession"
     [] pc \in {"rd.replayAT", "rf.rrevat", "rv.revat", "dp.replayAT"} -> "RevokeAccessToken"
     [] pc \in {"rd.replayRT", "rf.rrevrt", "rv.revrt", "dp.replayRT"} -> "RevokeRefreshToken"
     [] pc = "rd.getpkce" -> "GetPKCERequestSession"
     [] pc \in {"rd.begin", "rf.begin", "rf.rbegin", "dp.begin"} -> "BeginTX"
     [] pc = "rd.inval" -> "InvalidateAuthorizeCodeSession"
-    [] pc \in {"rd.createAT", "rf.createAT", "dp.createAT", "az.createAT"} -> "CreateAccessTokenSession"
+    [] pc \in {"rd.createAT", "rf.createAT", "dp.createAT", "az.createAT", "ja.createAT", "jb.createAT"} -> "CreateAccessTokenSession"
     [] pc \in {"rd.createRT", "rf.createRT", "dp.createRT"} -> "CreateRefreshTokenSession"
     [] pc \in {"rd.commit", "rf.commit", "rf.rcommit", "dp.commit"} -> "Commit"
     [] pc \in {"rd.rollback", "rf.rollback", "dp.rollback"} -> "Rollback"
@@ -78,6 +78,12 @@ MethodOf(pr) ==
     [] pc \in {"rv.findat", "pb.at"} -> "GetAccessTokenSession"
     [] pc \in {"dp.get1", "dp.get2"} -> "GetDeviceCodeSession"
     [] pc = "dp.inval" -> "InvalidateDeviceCodeSession"
+    [] pc = "ja.valid" -> "ClientAssertionJWTValid"
+    [] pc = "ja.set" -> "SetClientAssertionJWT"
+    [] pc = "jb.getkey" -> "GetPublicKey"
+    [] pc = "jb.used" -> "IsJWTUsed"
+    [] pc = "jb.scopes" -> "GetPublicKeyScopes"
+    [] pc = "jb.mark" -> "MarkJWTUsedForTime"
     [] pc = "az.createcode" -> "CreateAuthorizeCodeSession"
     [] pc = "az.createoidc" -> "CreateOpenIDConnectSession"
     [] pc = "az.createpkce" -> "CreatePKCERequestSession"
@@ -102,6 +108,8 @@ StartProc(G, op) ==
          IF st.cfg.par_enf THEN Done(G, NewProc(op, "done"), "invalid_request", "par_enforced").pr
          ELSE NewProc(op, "az.client")
     [] op.op = "probe" -> NewProc(op, IF op.kind = "at" THEN "pb.at" ELSE "pb.rt")
+    [] op.op = "jauth" -> NewProc(op, "ja.client")
+    [] op.op = "jbearer" -> NewProc(op, "jb.getkey")
     [] OTHER -> NewProc(op, "done")
 
 ClientStep(G, pr, f, next) ==     \* AuthenticateClient: GetClient, then the secret check
@@ -475,6 +483,40 @@ ProbeStep(G, pr, f) ==
        ELSE IF op.kind = "rt" /\ pr.l.e1 = "" THEN Goto(G, [pr EXCEPT !.l.e1 = "x"], "pb.at")
        ELSE Done(G, pr, "inactive", "introspect_inactive")
 
+(* ======================================================================== *)
+(* JWT assertions: each jti is accepted at most once (C15)                  *)
+(*  jauth  : private_key_jwt client authentication + client_credentials     *)
+(*  jbearer: JWT-bearer authorization grant (RFC 7523)                      *)
+(* op.val is the jti of the presented assertion                             *)
+(* ======================================================================== *)
+AssertionStep(G, pr, f) ==
+  LET st == G.st
+      op == pr.op
+      pc == pr.pc
+      j == op.val
+      i == Count(st.S.at) + 1
+      Issue(client, sub) ==
+         LET row == [ATRow(st, st.nrid + 1, client, {"a"}, IF op.op = "jbearer" THEN {"https://issuer.example/token"} ELSE {}, sub, "token") EXCEPT !.dl = TRUE] IN
+         [G |-> [SetS(G, CreateAccessTokenSession(st.S, i, row)) EXCEPT !.st.nrid = @ + 1, !.st.nep = @ + 1],
+          pr |-> [pr EXCEPT !.pc = "done", !.out = [Out0 EXCEPT !.at = i, !.expin = st.cfg.l_at]]]
+  IN
+  CASE pc = "ja.client" -> IF f # "none" THEN Done(G, pr, "invalid_client", "client_lookup_failed") ELSE Goto(G, pr, "ja.valid")
+    [] pc = "ja.valid" -> IF f # "none" \/ JTIKnown(st.S, j) THEN Done(G, pr, "jti_known", "jti_replayed") ELSE Goto(G, pr, "ja.set")
+    [] pc = "ja.set" ->
+         IF f # "none" THEN Done(G, pr, "error", "storage_failure")
+         ELSE IF JTIKnown(st.S, j) THEN Done(G, pr, "jti_known", "jti_replayed")
+         ELSE Goto(SetS(G, MarkJTI(st.S, j)), pr, "ja.createAT")
+    [] pc = "ja.createAT" -> IF f # "none" THEN Done(G, pr, "server_error", "storage_failure") ELSE Issue("J", Subject)
+    [] pc = "jb.getkey" -> IF f # "none" THEN Done(G, pr, "invalid_grant", "assertion_key_unknown") ELSE Goto(G, pr, "jb.used")
+    [] pc = "jb.used" ->
+         IF f # "none" THEN Done(G, pr, "server_error", "storage_failure")
+         ELSE IF JTIKnown(st.S, j) THEN Done(G, pr, "jti_known", "jti_replayed") ELSE Goto(G, pr, "jb.scopes")
+    [] pc = "jb.scopes" -> IF f # "none" THEN Done(G, pr, "server_error", "storage_failure") ELSE Goto(G, pr, "jb.mark")
+    [] pc = "jb.mark" ->
+         IF f # "none" \/ JTIKnown(st.S, j) THEN Done(G, pr, "server_error", "jti_replayed")
+         ELSE Goto(SetS(G, MarkJTI(st.S, j)), pr, "jb.createAT")
+    [] OTHER -> IF f # "none" THEN Done(G, pr, "server_error", "storage_failure") ELSE Issue("", "sub-1")
+
 PStep(G, pr0, f) ==
   LET pr == IF f # "none" THEN [pr0 EXCEPT !.l.inj = TRUE] ELSE pr0 IN     \* ghosts are only recorded for fault-free requests
   Settle(CASE pr.op.op = "redeem" -> RedeemStep(G, pr, f)
@@ -482,6 +524,7 @@ PStep(G, pr0, f) ==
            [] pr.op.op = "revoke" -> RevokeStep(G, pr, f)
            [] pr.op.op = "devpoll" -> DevPollStep(G, pr, f)
            [] pr.op.op = "authorize" -> AuthorizeStep(G, pr, f)
+           [] pr.op.op \in {"jauth", "jbearer"} -> AssertionStep(G, pr, f)
            [] OTHER -> ProbeStep(G, pr, f))
 
 (* Running one request to completion without faults.  The refinement claim
